@@ -17,6 +17,9 @@ def configs(ctx):
                 J = 2 if max(Lc, Lr) <= 8 else 1
                 fwd.append((mode, 'tuple4', Lc, Lr, H, W, J, 1, 2))
                 inv.append((mode, 'tuple4', Lc, Lr, H, W, J, 1, 2, 0))
+                if J == 2 and (H, W) in sizes[:3]:
+                    for mask in (1, 2, 3):          # None highpass levels with per-axis filters
+                        inv.append((mode, 'tuple4', Lc, Lr, H, W, J, 1, 2, mask))
                 sib.append(('afb-module', mode, 4, Lc, Lr, H, W))
                 sib.append(('sfb-module', mode, 4, Lc, Lr, (H + Lc) // 2, (W + Lr) // 2))
         for L in (2, 6):
